@@ -79,6 +79,60 @@ def _utility_term(rr, ind_cols, alt_cols, comb_names):
     return ['mul', V(rr.choice(alt_cols)), V(rr.choice(alt_cols))]
 
 
+INDEX_STYLES = ['range', 'perm', 'sorted', 'gaps', 'offset', 'id', 'id_named', 'string', 'repeated']
+
+
+def _index_style(rr, n, ids, for_alternatives):
+    """one of several row-label styles: {'style': name, 'labels': [...]} ('sorted': sort by a column, labels follow)"""
+    styles = ['range', 'range', 'perm', 'perm', 'sorted', 'gaps', 'offset', 'string', 'repeated']
+    if for_alternatives:
+        styles += ['id', 'id', 'id_named']
+    st = rr.choice(styles)
+    if st == 'range':
+        return {'style': 'range'}
+    if st == 'perm':
+        lab = list(range(n))
+        rr.shuffle(lab)
+        return {'style': st, 'labels': lab}
+    if st == 'sorted':
+        return {'style': st, 'ascending': rr.random() < 0.5}
+    if st == 'gaps':  # rows kept from a larger table
+        return {'style': st, 'labels': sorted(rr.sample(range(0, 3 * n + 2), n))}
+    if st == 'offset':
+        off = rr.choice([-n, -3, 1, 7, 100, 10 ** 6])
+        lab = list(range(off, off + n))
+        if rr.random() < 0.3:
+            rr.shuffle(lab)
+        return {'style': st, 'labels': lab}
+    if st in ('id', 'id_named'):
+        return {'style': st}
+    if st == 'string':
+        lab = [f'r{k}' for k in range(n)]
+        rr.shuffle(lab)
+        return {'style': st, 'labels': lab}
+    # repeated labels
+    lab = [rr.randrange(0, max(1, n // 2)) for _ in range(n)]
+    return {'style': 'repeated', 'labels': lab}
+
+
+def _apply_index(df, style, sort_col, id_col=None):
+    st = (style or {}).get('style', 'range')
+    if st == 'range':
+        return df
+    if st == 'sorted':
+        # a user sorting the table by an attribute and not resetting the index (stable: rows keep their content)
+        return df.sort_values(sort_col, ascending=style.get('ascending', True), kind='stable')
+    if st == 'id':
+        df = df.copy()
+        df.index = df[id_col].to_numpy()
+        return df
+    if st == 'id_named':
+        return df.set_index(id_col, drop=False)
+    df = df.copy()
+    df.index = list(style['labels'])
+    return df
+
+
 def make_spec(seed, i, tier='quick', model=None, full=None, **force):
     rr = random.Random(f'c19/{seed}/{i}')
     big = tier == 'thorough'
@@ -156,6 +210,9 @@ def make_spec(seed, i, tier='quick', model=None, full=None, **force):
     index = None
     if rr.random() < 0.25:
         index = rr.sample(range(0, 5 * n_ind + 3), n_ind)
+    # row labels of the two tables, chosen independently (the library must identify rows by id / position, never by label)
+    alt_index = _index_style(rr, n_alt, ids, for_alternatives=True)
+    ind_index = {'style': 'range'} if index is not None else _index_style(rr, n_ind, None, for_alternatives=False)
     choice_float = rr.random() < 0.3
     # ---- formulas ----
     attr_names = list(alt_cols)
@@ -228,6 +285,7 @@ def make_spec(seed, i, tier='quick', model=None, full=None, **force):
         'ids': ids, 'alt_cols': alt_cols, 'alt_int_cols': int_cols,
         'strata': strata, 'sizes': sizes,
         'choices': choices, 'choice_float': choice_float, 'ind_cols': ind_cols, 'ind_int_cols': ind_int, 'index': index,
+        'alt_index': alt_index, 'ind_index': ind_index,
         'combined': comb, 'utility': util, 'mev': mev, 'nests': nests,
     }
     return spec
@@ -272,6 +330,15 @@ def directed():
     # D6: CNL, partial sampling, equal sizes of the two samples
     out.append(dict(base, model='cnl', full=False, strata=[[3, 5, 7], [9, 11, 20]], sizes=[2, 2],
                     mev={'strata': [[3, 7], [11, 20]], 'sizes': [2, 2]}, nests=cnl2))
+    # D7-D10: row labels that differ from row positions (table sorted without reset_index, indexed by id, shuffled)
+    out.append(dict(base, model='logit', full=True, strata=[[3, 5, 7], [9, 11, 20]], sizes=[3, 3], mev=None, nests=None,
+                    alt_index={'style': 'sorted', 'ascending': True}))
+    out.append(dict(base, model='logit', full=False, strata=[[3, 5, 7], [9, 11, 20]], sizes=[2, 2], mev=None, nests=None,
+                    alt_index={'style': 'id'}, ind_index={'style': 'string', 'labels': ['g', 'a', 'c', 'b', 'f', 'e', 'd']}))
+    out.append(dict(base, model='nested', full=True, mev={'strata': [[3, 7], [11, 20]], 'sizes': [2, 2]}, nests=nl,
+                    alt_index={'style': 'perm', 'labels': [4, 2, 5, 0, 1, 3]}, ind_index={'style': 'perm', 'labels': [6, 0, 3, 1, 5, 2, 4]}))
+    out.append(dict(base, model='logit', full=True, strata=[[3, 5, 7], [9, 11, 20]], sizes=[3, 3], mev=None, nests=None,
+                    alt_index={'style': 'gaps', 'labels': [1, 4, 5, 9, 12, 17]}, ind_index={'style': 'repeated', 'labels': [0, 0, 1, 1, 2, 2, 0]}))
     return out
 
 
@@ -313,10 +380,20 @@ def frames(spec):
     for c, v in spec['alt_cols'].items():
         alt[c] = np.array(v, dtype=int if c in spec['alt_int_cols'] else float)
     alternatives = pd.DataFrame(alt)
+    alternatives = _apply_index(alternatives, spec.get('alt_index'), list(spec['alt_cols'])[0], ID_COL)
     ind = {CHOICE_COL: np.array(spec['choices'], dtype=float if spec['choice_float'] else int)}
     for c, v in spec['ind_cols'].items():
         ind[c] = np.array(v, dtype=int if c in spec['ind_int_cols'] else float)
     individuals = pd.DataFrame(ind, index=spec['index'])
+    ist = spec.get('ind_index') or {'style': 'range'}
+    if ist.get('style') != 'sorted':  # the order of the individuals is part of the specification: labels only
+        individuals = _apply_index(individuals, ist, None)
+    else:
+        order = sorted(range(len(individuals)), key=lambda r: (ind[list(spec['ind_cols'])[0]][r], r))
+        lab = [0] * len(order)
+        for pos, r in enumerate(order):
+            lab[r] = pos
+        individuals.index = lab  # what sort_values + a later re-sort on another key leaves behind: a permutation
     return individuals, alternatives
 
 
